@@ -147,15 +147,20 @@ Proof.
   destruct (mod_is_empty b v); simpl; auto. destruct l as [|x l]; simpl; auto.
   rewrite (ce_lenBB a b H). destruct x; simpl; auto using ce_w_lenBB.
 Qed.
+Lemma ce_own_arg a b x : core_eq a b -> core_eq (own_arg a x) (own_arg b x).
+Proof. intro H. unfold own_arg. destruct x; try exact H. rewrite (ce_lenBB a b H). apply ce_w_lenBB. exact H. Qed.
+Lemma bufX_own_arg a x : bufX (own_arg a x) = bufX a.
+Proof. destruct x; reflexivity. Qed.
+
 Lemma mod_ifthen_core a b v l : core_eq a b -> step3_eq (mod_ifthen a v l) (mod_ifthen b v l).
 Proof.
   intro H. unfold mod_ifthen, step3_eq. destruct l; simpl; auto.
-  rewrite (check_true_core a b v H). destruct (check_true b v); simpl; auto.
+  rewrite (check_true_core a b v H). destruct (check_true b v); simpl; auto using ce_own_arg.
 Qed.
 Lemma mod_ifthenelse_core a b v l : core_eq a b -> step3_eq (mod_ifthenelse a v l) (mod_ifthenelse b v l).
 Proof.
   intro H. unfold mod_ifthenelse, step3_eq. destruct l as [|x [|y l]]; simpl; auto.
-  rewrite (check_true_core a b v H). destruct (check_true b v); simpl; auto.
+  rewrite (check_true_core a b v H). destruct (check_true b v); simpl; auto using ce_own_arg.
 Qed.
 
 Lemma run_bget_core a b g l : core_eq a b -> step3_eq (run_bget a g l) (run_bget b g l).
@@ -209,10 +214,10 @@ Proof.
     destruct (mod_is_empty (w_bufX b1 raw) raw); [|reflexivity]. destruct la as [|x l]; [reflexivity|]. destruct x; reflexivity.
   - apply G; [apply mod_ifthen_core; exact C3|].
     unfold mod_ifthen. destruct la; [reflexivity|]. rewrite (check_true_core _ _ raw C3).
-    destruct (check_true (w_bufX b1 raw) raw); reflexivity.
+    destruct (check_true (w_bufX b1 raw) raw); cbn [fst]; rewrite ?bufX_own_arg; reflexivity.
   - apply G; [apply mod_ifthenelse_core; exact C3|].
     unfold mod_ifthenelse. destruct la as [|x [|y l]]; try reflexivity. rewrite (check_true_core _ _ raw C3).
-    destruct (check_true (w_bufX b1 raw) raw); reflexivity.
+    destruct (check_true (w_bufX b1 raw) raw); cbn [fst]; rewrite ?bufX_own_arg; reflexivity.
   - apply (G (w_bufX a1 raw, None, None) (w_bufX b1 raw, None, None)); [unfold step3_eq; simpl; auto|reflexivity].
   - destruct (u_mod U (m_id m)) as [f|].
     + rewrite (deref_core _ _ raw C3).
